@@ -72,6 +72,14 @@ Theorem C18_typed_rt_partial : forall id fts fs,
 Proof. exact typed_rt. Qed.
 Print Assumptions C18_typed_rt_partial.
 
+(* to_dict of a canonically shaped typed object is the reference JSON of its content (no bare CBORTag outside
+   RawPlutusData: C18_typed_to_dict_tag_refuted) *)
+Theorem C18_typed_to_dict : forall v,
+  canon_typed v = true -> no_tag_outside_raw v = true -> vshape v_raw_nolistkeys v = true ->
+  t_dict v = Ok (json_of (abs v)).
+Proof. exact typed_todict. Qed.
+Print Assumptions C18_typed_to_dict.
+
 (* ---- raw data ---- *)
 (* RawPlutusData over the canonical Python shape, and over plain Python lists (normalised by to_primitive) *)
 Theorem C18_raw_build : forall d,
